@@ -108,10 +108,71 @@ def coq_op(o):
     if n == "SetMantExp":
         return "(OSetMantExp %s %s %s)" % (t[1], t[2], _z(t[3]))
     if n == "MantExp":
-        return "(OMantExp %s %s)" % (t[1], "None" if t[2] == "-" else "(Some %s)" % t[2])
+        return "(OMantExp %s %s)" % (t[1], "None" if t[2] == "-" else "(Some %s%%nat)" % t[2])
     if n == "SetBitsExp":
         return "(OSetBitsExp %s %s [%s])" % (t[1], _z(t[2]), "; ".join(t[4:]))
     if n == "GobDecode":
         h = "" if t[2] == "-" else t[2]
         return "(OGobDecode %s [%s])" % (t[1], "; ".join(str(int(h[i:i + 2], 16)) for i in range(0, len(h), 2)))
     raise KeyError(n)
+
+
+# ----------------------------------------------------------------------------
+# random programs over all modelled public operations
+
+def rand_op(rng, nv, heavy=True):
+    v = lambda: rng.randint(0, nv - 1)
+    k = rng.randint(0, 29)
+    if k <= 7:
+        return "%s %d %d %d" % (rng.choice(["Add", "Sub", "Mul", "Quo"]), v(), v(), v())
+    if k == 8:
+        return "FMA %d %d %d %d" % (v(), v(), v(), v())
+    if k <= 10:
+        return "%s %d %d" % (rng.choice(["Set", "Neg", "Abs", "Copy"]), v(), v())
+    if k == 11:
+        return "SetPrec %d %d" % (v(), rng.choice([0, 1, 2, 5, 19, 20, 34, 38, 60]))
+    if k == 12:
+        return "SetMode %d %d" % (v(), rng.randint(0, 5))
+    if k == 13:
+        return "SetInf %d %d" % (v(), rng.randint(0, 1))
+    if k == 14:
+        return "SetInt64 %d %d" % (v(), rng.choice([0, 1, -1, 2**63 - 1, -2**63, rng.randint(-10**6, 10**6), rng.randint(-2**63, 2**63 - 1)]))
+    if k == 15:
+        return "SetUint64 %d %d" % (v(), rng.choice([0, 1, 2**64 - 1, 10**19, rng.randint(0, 2**64 - 1)]))
+    if k == 16:
+        return "SetInt %d %d" % (v(), rng.choice([0, 10**40, -(10**25) + 1, rand_coeff(rng, 80), -rand_coeff(rng, 80)]))
+    if k == 17:
+        from fractions import Fraction
+        f = Fraction(rng.choice([1, -1, 22, rand_coeff(rng, 30)]), rng.choice([1, 3, 7, 8, 1000, rand_coeff(rng, 20)]))
+        return "SetRat %d %d %d" % (v(), f.numerator, f.denominator)
+    if k == 18:
+        return "NewDecimal %d %d %d" % (v(), rng.randint(-10**9, 10**9), rng.choice([0, 5, -5, rng.randint(-50, 50)]))
+    if k == 19:
+        return "SetMantExp %d %d %d" % (v(), v(), rng.choice([0, 1, -1, 30, -30, rng.randint(-40, 40)]))
+    if k == 20:
+        return "MantExp %d %s" % (v(), rng.choice(["-", str(v())]))
+    if k == 21:
+        n = rng.randint(0, 4)
+        ws = [rng.choice([0, 1, B - 1, rng.randint(0, B - 1)]) for _ in range(n)]
+        return "SetBitsExp %d %d %d %s" % (v(), rng.randint(-40, 40), n, " ".join(map(str, ws)))
+    if k == 22:
+        return "GobRoundTrip %d %d" % (v(), v())
+    if k == 23:
+        return rng.choice(["Cmp %d %d" % (v(), v()), "Sign %d" % v(), "IsInt %d" % v(), "MinPrec %d" % v()])
+    if k == 24:
+        return rng.choice(["Int64 %d" % v(), "Uint64 %d" % v(), "BitsExp %d" % v()])
+    return "%s %d %d %d" % (rng.choice(["Add", "Sub", "Mul", "Quo"]), v(), v(), v())
+
+
+def rand_program(rng, nvars=4, length=10, maxdigits=40):
+    vs = []
+    for _ in range(nvars):
+        k = rng.randint(0, 9)
+        if k == 0:
+            vs.append(zero(rng.randint(0, 1), prec=rng.choice([0, 0, 3, 34]), mode=rng.randint(0, 5)))
+        elif k == 1:
+            vs.append(inf(rng.randint(0, 1), prec=rng.choice([0, 5]), mode=rng.randint(0, 5)))
+        else:
+            vs.append(rand_fin(rng, maxdigits, wide=False))
+    ops = [rand_op(rng, nvars) for _ in range(length)]
+    return vs, ops
